@@ -794,6 +794,8 @@ let run_case (t : string list) : string =
       let ev tok =
         match Stdlib.String.split_on_char ':' tok with
         | [ "S"; k; sent ] -> ShutdownTrace.TSubmit (kind k, b sent)
+        | [ "W"; k ] -> ShutdownTrace.TIssue (kind k)
+        | [ "M"; k ] -> ShutdownTrace.TAdmit (kind k)
         | [ "P"; k ] -> ShutdownTrace.TProcess (kind k)
         | [ "I" ] -> ShutdownTrace.TIncoming
         | [ "N" ] -> ShutdownTrace.TAcceptNone
